@@ -269,6 +269,46 @@ theorem importsS_congr {β : Type} (ex ex' : Nat → List (Name × β)) (s : Spe
   | prefixIn p s ih => simp only [Spec.importsS, ih h]
   | onlyIn s ids ih => simp only [Spec.importsS, ih h]
 
+theorem lookup_map_snd {β γ : Type} (f : β → γ) (n : Name) : ∀ (l : List (Name × β)),
+    (l.map fun e => (e.1, f e.2)).lookup n = (l.lookup n).map f := by
+  intro l
+  induction l with
+  | nil => rfl
+  | cons e l ih =>
+    obtain ⟨a, b⟩ := e
+    simp only [List.map_cons, List.lookup_cons]
+    cases n == a <;> simp [ih]
+
+theorem mapOpt_map {α β γ : Type} (f : α → Option β) (h : β → γ) : ∀ (l : List α),
+    mapOpt (fun a => (f a).map h) l = (mapOpt f l).map (List.map h) := by
+  intro l
+  induction l with
+  | nil => rfl
+  | cons a l ih =>
+    simp only [mapOpt, ih]
+    cases f a <;> cases mapOpt f l <;> rfl
+
+/-- `importsS` commutes with a map on the payload of the export lists. -/
+theorem importsS_map {β γ : Type} (f : β → γ) (ex : Nat → List (Name × β)) (s : Spec) :
+    s.importsS (fun m => (ex m).map fun e => (e.1, f e.2)) =
+      (s.importsS ex).map (List.map fun e => (e.1, f e.2)) := by
+  induction s with
+  | path m => rfl
+  | prefixIn p s ih =>
+    simp only [Spec.importsS, ih, Option.map_map]
+    cases s.importsS ex <;> simp [Function.comp]
+  | onlyIn s ids ih =>
+    simp only [Spec.importsS, ih]
+    cases s.importsS ex with
+    | none => rfl
+    | some inner =>
+      simp only [Option.map_some]
+      rw [← mapOpt_map]
+      congr 1
+      funext ia
+      rw [lookup_map_snd]
+      cases inner.lookup ia.1 <;> rfl
+
 theorem sImports_congr (ex ex' : Nat → List (Name × Val)) (specs : List Spec)
     (h : ∀ s ∈ specs, ex s.target = ex' s.target) : sImports ex specs = sImports ex' specs := by
   unfold sImports
